@@ -8,10 +8,14 @@
 package main
 
 import (
+	"bytes"
 	"context"
+	"encoding/json"
 	"flag"
 	"fmt"
+	"math"
 	"os"
+	"os/exec"
 	"sort"
 	"strings"
 	"sync"
@@ -20,6 +24,7 @@ import (
 
 	"github.com/iotaledger/hive.go/app/daemon"
 	"github.com/iotaledger/hive.go/ierrors"
+	"github.com/iotaledger/hive.go/log"
 
 	"verif/harness/vx"
 )
@@ -411,7 +416,7 @@ func hookFn(point string) {
 }
 
 type world struct {
-	d       *daemon.OrderedDaemon
+	d       daemon.Daemon // a New() instance or the package-level functions (default instance, child process only)
 	rec     *recorder
 	pool    []call
 	release []chan struct{}
@@ -436,8 +441,8 @@ func errCode(err error) int {
 	return 8
 }
 
-func newWorld(pool []call) *world {
-	w := &world{d: daemon.New(), rec: &recorder{}, pool: pool, tokens: map[int]*hookToken{}}
+func newWorld(pool []call, d daemon.Daemon) *world {
+	w := &world{d: d, rec: &recorder{}, pool: pool, tokens: map[int]*hookToken{}}
 	w.release = make([]chan struct{}, len(pool))
 	w.done = make([]atomic.Bool, len(pool))
 	for i := range pool {
@@ -476,7 +481,7 @@ func (w *world) issue(t int, body daemon.WorkerFunc) {
 			code := 9
 			func() {
 				defer func() { _ = recover() }()
-				code = errCode(w.d.BackgroundWorker(wname(c.Name), body, int(c.Order)))
+				code = errCode(registerShaped(w.d, t+len(w.pool), wname(c.Name), body, int(c.Order)))
 			}()
 			w.rec.add(event{Kind: evBW, A: t, B: code})
 		case cStart:
@@ -576,8 +581,11 @@ func waitUntil(f func() bool) bool {
 
 // runScript executes ops on a fresh daemon; returns the per-op observations, the per-op expectations and
 // whether every wait completed before the watchdog.
-func runScript(pool []call, ops []op, settle time.Duration) (seen, want []obs, timedOut bool) {
-	w := newWorld(pool)
+func runScript(d daemon.Daemon, pool []call, ops []op, settle time.Duration) (seen, want []obs, timedOut bool, why string) {
+	w := newWorld(pool, d)
+	if msg := quiescentState(d, false, false, nil, nil); msg != "" {
+		why = "fresh daemon: " + msg
+	}
 	s := newSim(pool)
 	pos := 0
 	lockHeld := false
@@ -668,6 +676,21 @@ func runScript(pool []call, ops []op, settle time.Duration) (seen, want []obs, t
 		if !ok {
 			timedOut = true
 		}
+		if ok && !lockHeld && why == "" {
+			// read-only API at the quiescent point: IsRunning, IsStopped, ContextStopped, GetRunningBackgroundWorkers
+			var live []string
+			ord := map[string]int64{}
+			for _, x := range s.all {
+				if x.live {
+					live = append(live, wname(x.name))
+					ord[wname(x.name)] = x.order
+				}
+			}
+			msg := ""
+			if !waitUntil(func() bool { msg = quiescentState(d, s.running, s.stopped, live, ord); return msg == "" }) {
+				why = fmt.Sprintf("after op %d: %s", len(seen), msg)
+			}
+		}
 		time.Sleep(settle)
 		evs := w.rec.snapshot(pos)
 		pos += len(evs)
@@ -694,7 +717,13 @@ func runScript(pool []call, ops []op, settle time.Duration) (seen, want []obs, t
 	case <-time.After(watchdog):
 		timedOut = true
 	}
-	return seen, want, timedOut
+	if !timedOut && why == "" {
+		msg := ""
+		if !waitUntil(func() bool { msg = quiescentState(d, false, true, nil, nil); return msg == "" }) {
+			why = "after the final ShutdownAndWait: " + msg
+		}
+	}
+	return seen, want, timedOut, why
 }
 
 func nameLiveAgain(s *sim, name, idx int) bool {
@@ -702,11 +731,193 @@ func nameLiveAgain(s *sim, name, idx int) bool {
 	return ok && w.idx != idx && w.live
 }
 
+// ---------- API surface: instance methods, package-level functions, argument shapes, read-only calls ----------
+
+var _ daemon.Daemon = (*daemon.OrderedDaemon)(nil)
+
+// pkgAPI drives the process-global default instance through the exported package-level functions.
+type pkgAPI struct{}
+
+func (pkgAPI) GetRunningBackgroundWorkers() []string { return daemon.GetRunningBackgroundWorkers() }
+func (pkgAPI) BackgroundWorker(name string, h daemon.WorkerFunc, order ...int) error {
+	return daemon.BackgroundWorker(name, h, order...)
+}
+func (pkgAPI) DebugLogger(l log.Logger)           { daemon.DebugLogger(l) }
+func (pkgAPI) Start()                             { daemon.Start() }
+func (pkgAPI) Run()                               { daemon.Run() }
+func (pkgAPI) Shutdown()                          { daemon.Shutdown() }
+func (pkgAPI) ShutdownAndWait()                   { daemon.ShutdownAndWait() }
+func (pkgAPI) IsRunning() bool                    { return daemon.IsRunning() }
+func (pkgAPI) IsStopped() bool                    { return daemon.IsStopped() }
+func (pkgAPI) ContextStopped() context.Context    { return daemon.ContextStopped() }
+
+// registerShaped passes the order in one of the argument shapes the variadic signature admits (all mean `order`).
+func registerShaped(d daemon.Daemon, shape int, name string, h daemon.WorkerFunc, order int) error {
+	switch shape % 4 {
+	case 0:
+		return d.BackgroundWorker(name, h, order)
+	case 1:
+		if order == 0 {
+			return d.BackgroundWorker(name, h) // the default order
+		}
+		return d.BackgroundWorker(name, h, order, order)
+	case 2:
+		return d.BackgroundWorker(name, h, []int{order}...)
+	default:
+		if order == 0 {
+			return d.BackgroundWorker(name, h, []int{}...)
+		}
+		return d.BackgroundWorker(name, h, order)
+	}
+}
+
+// quiescentState compares the read-only API with the reference simulator's state ("" = agrees):
+// IsRunning, IsStopped, ContextStopped, GetRunningBackgroundWorkers (the running names, lowest order first).
+func quiescentState(d daemon.Daemon, running, stopped bool, live []string, ord map[string]int64) string {
+	if got := d.IsStopped(); got != stopped {
+		return fmt.Sprintf("IsStopped() = %v, expected %v", got, stopped)
+	}
+	ctx := d.ContextStopped()
+	if ctx == nil {
+		return "ContextStopped() = nil"
+	}
+	if got := ctx.Err() != nil; got != stopped {
+		return fmt.Sprintf("ContextStopped() done = %v, expected %v", got, stopped)
+	}
+	if got := d.IsRunning(); got != running {
+		return fmt.Sprintf("IsRunning() = %v, expected %v", got, running)
+	}
+	got := d.GetRunningBackgroundWorkers()
+	a, b := append([]string{}, got...), append([]string{}, live...)
+	sort.Strings(a)
+	sort.Strings(b)
+	if fmt.Sprint(a) != fmt.Sprint(b) {
+		return fmt.Sprintf("GetRunningBackgroundWorkers() = %v, running bodies %v", got, b)
+	}
+	for i := 1; i < len(got); i++ {
+		if ord[got[i-1]] > ord[got[i]] {
+			return fmt.Sprintf("GetRunningBackgroundWorkers() = %v is not sorted by order (%d before %d)", got, ord[got[i-1]], ord[got[i]])
+		}
+	}
+	return ""
+}
+
+// ---------- child processes (the default instance is process-global and single-shot: one scenario per process) ----------
+
+type childReq struct {
+	Mode   string `json:"mode"` // script | free | rereg
+	API    string `json:"api"`  // pkg | instance
+	Logger bool   `json:"logger,omitempty"`
+	Pool   []call `json:"pool,omitempty"`
+	Ops    []op   `json:"ops,omitempty"`
+	Seed   uint64 `json:"seed,omitempty"`
+}
+type childResp struct {
+	Seen     []obs    `json:"seen,omitempty"`
+	Want     []obs    `json:"want,omitempty"`
+	TimedOut bool     `json:"timed_out,omitempty"`
+	Why      string   `json:"why,omitempty"`
+	Desc     freeDesc `json:"desc,omitempty"`
+	Events   []event  `json:"events,omitempty"`
+	Hung     bool     `json:"hung,omitempty"`
+	LogBytes int64    `json:"log_bytes,omitempty"`
+}
+
+type countWriter struct{ n atomic.Int64 }
+
+func (c *countWriter) Write(p []byte) (int, error) { c.n.Add(int64(len(p))); return len(p), nil }
+
+func childMain() {
+	var req childReq
+	if err := json.NewDecoder(os.Stdin).Decode(&req); err != nil {
+		vx.Die("child: %v", err)
+	}
+	daemon.VerifYield = hookFn
+	var d daemon.Daemon = daemon.New()
+	if req.API == "pkg" {
+		d = pkgAPI{}
+	}
+	cw := &countWriter{}
+	if req.Logger {
+		d.DebugLogger(log.NewLogger(log.WithOutput(cw), log.WithLevel(log.LevelDebug)))
+	}
+	var resp childResp
+	switch req.Mode {
+	case "script":
+		resp.Seen, resp.Want, resp.TimedOut, resp.Why = runScript(d, req.Pool, req.Ops, 150*time.Microsecond)
+	case "free":
+		resp.Desc, resp.Events, resp.Hung, resp.Why = freeRun(vx.NewRng(req.Seed), d)
+	case "rereg":
+		resp.Events, resp.Hung = reregRun(vx.NewRng(req.Seed), d)
+	default:
+		vx.Die("child: unknown mode %q", req.Mode)
+	}
+	resp.LogBytes = cw.n.Load()
+	if err := json.NewEncoder(os.Stdout).Encode(resp); err != nil {
+		vx.Die("child: %v", err)
+	}
+}
+
+// runChild runs one scenario in a fresh process (watchdog: the process is killed after 60 s).
+func runChild(req childReq) (childResp, error) {
+	var resp childResp
+	in, _ := json.Marshal(req)
+	ctx, cancel := context.WithTimeout(context.Background(), 60*time.Second)
+	defer cancel()
+	cmd := exec.CommandContext(ctx, os.Args[0], "child")
+	cmd.Stdin = bytes.NewReader(in)
+	var stdout, stderr bytes.Buffer
+	cmd.Stdout, cmd.Stderr = &stdout, &stderr
+	if err := cmd.Run(); err != nil {
+		tail := stderr.String()
+		if len(tail) > 1500 {
+			tail = tail[:1500]
+		}
+		return resp, fmt.Errorf("child process failed: %v: %s", err, tail)
+	}
+	if err := json.Unmarshal(stdout.Bytes(), &resp); err != nil {
+		return resp, fmt.Errorf("child process output: %v", err)
+	}
+	return resp, nil
+}
+
+
 // ---------- script generation ----------
 
 var orderSet = []int64{-7, -1, 0, 0, 1, 1, 2, 5, 5, 40}
 
+// extreme orders: the ends of int ("shut down first" / "last" sentinels), their neighbours, the values around 0, and
+// values that collide or change sign when an order is narrowed to 32 bits; many pairs are more than MaxInt apart.
+var extremeSet = []int64{int64(math.MinInt), int64(math.MinInt), int64(math.MinInt) + 1, -1, 0, 0, 1, int64(math.MaxInt) - 1,
+	int64(math.MaxInt), int64(math.MaxInt), 10, -2, 5, 1<<32 + 5, 1 << 31, -(1 << 31) - 1}
+
+// pickPalette: ordinary orders, extreme orders, or only two values (many ties).
+func pickPalette(r *vx.Rng) ([]int64, string) {
+	switch x := r.Intn(100); {
+	case x < 50:
+		return orderSet, "ordinary"
+	case x < 82:
+		return extremeSet, "extreme"
+	default:
+		u := append(append([]int64{}, orderSet...), extremeSet...)
+		return []int64{vx.Pick(r, u), vx.Pick(r, u)}, "two-values"
+	}
+}
+
+// farApart: two of the orders differ by more than MaxInt (their difference does not fit into an int).
+func farApart(orders []int64) bool {
+	for _, a := range orders {
+		for _, b := range orders {
+			if a < 0 && b > 0 && b > a+int64(math.MaxInt) {
+				return true
+			}
+		}
+	}
+	return false
+}
+
 func genScript(r *vx.Rng) ([]call, []op) {
+	pal, _ := pickPalette(r)
 	var pool []call
 	var ops []op
 	s := newSim(nil)
@@ -740,7 +951,7 @@ func genScript(r *vx.Rng) ([]call, []op) {
 			if s.stopped && !r.Chance(1, 3) {
 				continue
 			}
-			c := call{Kind: cBW, Name: r.Intn(nNames), Order: vx.Pick(r, orderSet), WKind: r.Intn(2)}
+			c := call{Kind: cBW, Name: r.Intn(nNames), Order: vx.Pick(r, pal), WKind: r.Intn(2)}
 			t := add(c)
 			if !s.stopped && r.Chance(1, 6) && !runIssued {
 				do(op{Kind: opSteps, T: t, K: 1})
@@ -841,6 +1052,32 @@ func directed() [][2]any {
 	}
 }
 
+// directedExtreme: orders at the ends of int next to ordinary ones; every higher-order worker returns only when released,
+// so a lower order that is cancelled too early (or a ShutdownAndWait that returns too early) is observed.
+func directedExtreme() [][2]any {
+	bw := func(n int, o int64, k int) call { return call{Kind: cBW, Name: n, Order: o, WKind: k} }
+	lo, hi := int64(math.MinInt), int64(math.MaxInt)
+	return [][2]any{
+		// MinInt ("last") next to 10, MaxInt ("first") next to both; registered while running
+		{[]call{{Kind: cStart}, bw(0, 10, kFree), bw(1, lo, kOnCancel), bw(2, hi, kFree), {Kind: cShut, Sync: true}},
+			[]op{{opGo, 0, 0}, {opGo, 1, 0}, {opGo, 2, 0}, {opGo, 3, 0}, {opGo, 4, 0}, {opRelease, 3, 0}, {opRelease, 1, 0}}},
+		// registered before Start, in ascending order; -1 / 1 around the default; asynchronous shutdown first
+		{[]call{bw(0, lo, kFree), bw(1, -1, kFree), bw(2, 1, kFree), bw(3, hi, kFree), {Kind: cStart}, {Kind: cShut}, {Kind: cShut, Sync: true}},
+			[]op{{opGo, 0, 0}, {opGo, 1, 0}, {opGo, 2, 0}, {opGo, 3, 0}, {opGo, 4, 0}, {opGo, 5, 0}, {opGo, 6, 0},
+				{opRelease, 3, 0}, {opRelease, 2, 0}, {opRelease, 1, 0}, {opRelease, 0, 0}}},
+		// ties at both ends and their neighbours
+		{[]call{{Kind: cStart}, bw(0, lo, kFree), bw(1, hi, kFree), bw(2, lo, kOnCancel), bw(3, hi, kOnCancel), {Kind: cShut, Sync: true}},
+			[]op{{opGo, 0, 0}, {opGo, 1, 0}, {opGo, 2, 0}, {opGo, 3, 0}, {opGo, 4, 0}, {opGo, 5, 0}, {opRelease, 2, 0}, {opRelease, 1, 0}}},
+		{[]call{bw(0, lo+1, kFree), bw(1, lo, kFree), bw(2, hi-1, kFree), bw(3, hi, kFree), {Kind: cRun}, {Kind: cShut, Sync: true}},
+			[]op{{opGo, 0, 0}, {opGo, 1, 0}, {opGo, 2, 0}, {opGo, 3, 0}, {opGo, 4, 0}, {opGo, 5, 0},
+				{opRelease, 3, 0}, {opRelease, 2, 0}, {opRelease, 0, 0}, {opRelease, 1, 0}}},
+		// a name moves from one end to the other by re-registration; 0 in between
+		{[]call{{Kind: cStart}, bw(0, hi, kFree), bw(1, 0, kFree), bw(0, lo, kOnCancel), bw(2, 1<<32 + 5, kFree), bw(3, 5, kFree), {Kind: cShut, Sync: true}},
+			[]op{{opGo, 0, 0}, {opGo, 1, 0}, {opGo, 2, 0}, {opRelease, 1, 0}, {opGo, 3, 0}, {opGo, 4, 0}, {opGo, 5, 0}, {opGo, 6, 0},
+				{opRelease, 4, 0}, {opRelease, 5, 0}, {opRelease, 2, 0}}},
+	}
+}
+
 // ---------- free-running mode ----------
 
 func resOK(code int) bool { return code == 0 }
@@ -930,12 +1167,13 @@ type freeDesc struct {
 }
 
 // freeRun: concurrent clients on one daemon; every goroutine under a watchdog.
-func freeRun(r *vx.Rng) (freeDesc, []event, bool) {
+func freeRun(r *vx.Rng, d daemon.Daemon) (freeDesc, []event, bool, string) {
 	nW := 3 + r.Intn(6)
 	nNames := 2 + r.Intn(4)
+	pal, _ := pickPalette(r)
 	var pool []call
 	for i := 0; i < nW; i++ {
-		pool = append(pool, call{Kind: cBW, Name: r.Intn(nNames), Order: vx.Pick(r, orderSet), WKind: r.Intn(2)})
+		pool = append(pool, call{Kind: cBW, Name: r.Intn(nNames), Order: vx.Pick(r, pal), WKind: r.Intn(2)})
 	}
 	startAt := r.Intn(3)
 	if r.Chance(1, 8) {
@@ -943,7 +1181,6 @@ func freeRun(r *vx.Rng) (freeDesc, []event, bool) {
 	}
 	nShut := 1 + r.Intn(3)
 	withRun := r.Chance(1, 4)
-	d := daemon.New()
 	rec := &recorder{}
 	var wg sync.WaitGroup
 	us := func(n int) time.Duration { return time.Duration(r.Intn(n)) * time.Microsecond }
@@ -971,7 +1208,7 @@ func freeRun(r *vx.Rng) (freeDesc, []event, bool) {
 		code := 9
 		func() {
 			defer func() { _ = recover() }()
-			code = errCode(d.BackgroundWorker(wname(c.Name), mkBody(t, c, early, late), int(c.Order)))
+			code = errCode(registerShaped(d, t, wname(c.Name), mkBody(t, c, early, late), int(c.Order)))
 		}()
 		rec.add(event{Kind: evBW, A: t, B: code})
 	}
@@ -1106,7 +1343,14 @@ func freeRun(r *vx.Rng) (freeDesc, []event, bool) {
 		_ = ok
 		evs = rec.snapshot(0)
 	}
-	return freeDesc{Pool: pool}, evs, hung
+	why := ""
+	if !hung {
+		// read-only API after the final ShutdownAndWait
+		if !waitUntil(func() bool { why = quiescentState(d, false, true, nil, nil); return why == "" }) {
+			why = "after the final ShutdownAndWait: " + why
+		}
+	}
+	return freeDesc{Pool: pool}, evs, hung, why
 }
 
 // D20b (known finding): Run waits on a snapshot of the wait groups
@@ -1154,15 +1398,15 @@ func d20b() (evs []event, reproduced, hung bool) {
 
 // reregRun: a name is registered again the moment its previous worker is gone (the worker goroutine cleans up
 // concurrently); every accepted worker must still be stopped by the final ShutdownAndWait.
-func reregRun(r *vx.Rng) ([]event, bool) {
-	d := daemon.New()
+func reregRun(r *vx.Rng, d daemon.Daemon) ([]event, bool) {
 	rec := &recorder{}
 	d.Start()
 	id := 0
+	pal, _ := pickPalette(r)
 	for name := 0; name < 3; name++ {
 		chain := 2 + r.Intn(4)
 		for k := 0; k < chain; k++ {
-			i, order := id, vx.Pick(r, orderSet)
+			i, order := id, vx.Pick(r, pal)
 			id++
 			rel := make(chan struct{})
 			entered := make(chan struct{})
@@ -1179,7 +1423,7 @@ func reregRun(r *vx.Rng) ([]event, bool) {
 			rec.add(event{Kind: evBegin, A: i, B: name})
 			code := 3
 			for dl := time.Now().Add(watchdog); code == 3 && time.Now().Before(dl); { // tight spin: hit the cleanup window
-				code = errCode(d.BackgroundWorker(wname(name), body, int(order)))
+				code = errCode(registerShaped(d, i, wname(name), body, int(order)))
 			}
 			rec.add(event{Kind: evBW, A: i, B: code})
 			if code != 0 {
@@ -1209,11 +1453,18 @@ func reregRun(r *vx.Rng) ([]event, bool) {
 
 func main() {
 	if len(os.Args) < 2 {
-		vx.Die("usage: hx-c20 all [--scripts N] [--free M] --seed S --out cases.v --stats stats.json")
+		vx.Die("usage: hx-c20 all [--scripts N] [--free M] [--pkg P] [--pkgfree Q] --seed S --out cases.v --stats stats.json")
+	}
+	if os.Args[1] == "child" {
+		childMain()
+		return
 	}
 	fs := flag.NewFlagSet(os.Args[1], flag.ExitOnError)
-	nScripts := fs.Int("scripts", 250, "random scripts")
-	nFree := fs.Int("free", 120, "free-running histories")
+	nScripts := fs.Int("scripts", 250, "random scripts (New() instance)")
+	nFree := fs.Int("free", 120, "free-running histories (New() instance)")
+	nPkg := fs.Int("pkg", 60, "random scripts through the package-level functions (default instance; one child process each)")
+	nPkgFree := fs.Int("pkgfree", 24, "free-running histories through the package-level functions (child processes)")
+	noDirected := fs.Bool("nodirected", false, "skip the directed scripts (mutation sanity: what do the random generators find on their own)")
 	seed := fs.Uint64("seed", 1, "seed")
 	out := fs.String("out", "cases.v", "cases file")
 	statsP := fs.String("stats", "stats.json", "stats file")
@@ -1227,10 +1478,37 @@ func main() {
 		Type:   "case",
 		Footer: "Definition M := Eval vm_compute in mismatches cases.\nPrint M.",
 	}
-	failures := 0
-	doScript := func(tag string, pool []call, ops []op) {
-		seen, want, timedOut := runScript(pool, ops, 150*time.Microsecond)
-		desc := map[string]any{"mode": "script", "tag": tag, "pool": pool, "ops": ops, "seen": seen}
+	// failures are capped per API (4 each), so that a defect of one entry-point family does not hide the other
+	failures := map[string]int{}
+	// a case on which only the read-only API disagrees (IsRunning, IsStopped, ContextStopped, GetRunningBackgroundWorkers)
+	// while the shutdown order itself was kept: reported after the order failures, at most 2 per API, and not counted
+	// against the cap (so it cannot hide an order violation found later)
+	roFails := map[string][]any{}
+	childNo := 0
+	doScript := func(tag, api string, pool []call, ops []op) {
+		var seen, want []obs
+		var timedOut bool
+		var why string
+		desc := map[string]any{"mode": "script", "tag": tag, "api": api, "pool": pool, "ops": ops}
+		if api == "instance" {
+			seen, want, timedOut, why = runScript(daemon.New(), pool, ops, 150*time.Microsecond)
+		} else {
+			childNo++
+			logger := childNo%3 == 0
+			desc["debug_logger"] = logger
+			resp, err := runChild(childReq{Mode: "script", API: api, Logger: logger, Pool: pool, Ops: ops})
+			if err != nil {
+				failures[api]++
+				desc["why"] = err.Error()
+				st.Fail(desc)
+				return
+			}
+			seen, want, timedOut, why = resp.Seen, resp.Want, resp.TimedOut, resp.Why
+			if logger && resp.LogBytes > 0 {
+				st.Count("api:debug-logger-wrote-output")
+			}
+		}
+		desc["seen"] = seen
 		st.CaseIndex = append(st.CaseIndex, desc)
 		cf.Add(fmt.Sprintf("CScript %s %s %s",
 			vx.ListOf(pool, func(c call) string { return c.coq() }),
@@ -1242,11 +1520,19 @@ func main() {
 				bad = true
 			}
 		}
-		if bad {
-			failures++
+		if bad || why != "" {
 			desc["expected"] = want
 			desc["timed_out"] = timedOut
-			st.Fail(desc)
+			if why != "" {
+				desc["why"] = why
+			}
+			if bad {
+				failures[api]++
+				st.Fail(desc)
+			} else if len(roFails[api]) < 2 {
+				desc["kind"] = "read-only-api"
+				roFails[api] = append(roFails[api], desc)
+			}
 		}
 		orders := map[int64]bool{}
 		hooked, early := false, false
@@ -1266,6 +1552,7 @@ func main() {
 			}
 		}
 		var sb strings.Builder
+		sb.WriteString(api)
 		for _, c := range pool {
 			sb.WriteString(c.coq())
 		}
@@ -1274,6 +1561,7 @@ func main() {
 		}
 		st.Case(sb.String(), len(orders) >= 2 || hooked || early)
 		st.Count(fmt.Sprintf("script:%s ops=%d-%d", tag, len(ops)/5*5, len(ops)/5*5+4))
+		st.Count("api:script-through-" + api)
 		if hooked {
 			st.Count("script:held-at-yield-point")
 		}
@@ -1283,10 +1571,39 @@ func main() {
 		if len(orders) >= 2 {
 			st.Count("script:>=2-order-groups-cancelled")
 		}
+		var os64 []int64
+		ext := false
+		for o := range orders {
+			os64 = append(os64, o)
+			if o == int64(math.MinInt) || o == int64(math.MaxInt) {
+				ext = true
+			}
+		}
+		if ext {
+			st.Count("script:cancelled-live-worker-of-order-MinInt-or-MaxInt")
+		}
+		if farApart(os64) {
+			st.Count("script:cancelled-orders-more-than-MaxInt-apart")
+		}
 		st.Sample(desc, 3)
 	}
 	for _, dcase := range directed() {
-		doScript("directed", dcase[0].([]call), dcase[1].([]op))
+		if !*noDirected {
+			doScript("directed", "instance", dcase[0].([]call), dcase[1].([]op))
+		}
+	}
+	for _, dcase := range directedExtreme() {
+		if !*noDirected {
+			doScript("directed-extreme", "instance", dcase[0].([]call), dcase[1].([]op))
+		}
+	}
+	// the same directed scripts through the package-level functions (default instance), one child process each
+	if *nPkg > 0 && !*noDirected {
+		for _, dcase := range append(directed(), directedExtreme()...) {
+			if failures["pkg"] < 4 {
+				doScript("directed", "pkg", dcase[0].([]call), dcase[1].([]op))
+			}
+		}
 	}
 	// D20b directed (known finding)
 	{
@@ -1305,52 +1622,92 @@ func main() {
 			st.Fail(map[string]any{"mode": "d20b", "why": why, "events": evs})
 		}
 	}
-	for i := 0; i < *nScripts && failures < 4; i++ {
+	for i := 0; i < *nScripts && failures["instance"] < 4; i++ {
 		pool, ops := genScript(rng.Fork())
-		doScript("random", pool, ops)
+		doScript("random", "instance", pool, ops)
 	}
-	for i := 0; i < *nFree/4 && failures < 4; i++ {
-		evs, hung := reregRun(rng.Fork())
+	for i := 0; i < *nPkg && failures["pkg"] < 4; i++ {
+		pool, ops := genScript(rng.Fork())
+		doScript("random", "pkg", pool, ops)
+	}
+	doLog := func(mode, api string, desc freeDesc, evs []event, hung bool, post string, runMatters bool) {
 		h, rn, why := histOK(evs)
-		idx := map[string]any{"mode": "rereg", "events": evs}
-		st.CaseIndex = append(st.CaseIndex, idx)
-		cf.Add(fmt.Sprintf("CLog %s %s %s", coqLog(evs), vx.Bool(h), vx.Bool(rn)))
-		st.Case(fmt.Sprint(evs), true)
-		st.Count("rereg:same-name-registered-again-immediately")
-		if hung || !h {
-			failures++
-			idx["why"] = why
-			idx["hung"] = hung
-			st.Fail(idx)
+		idx := map[string]any{"mode": mode, "api": api, "events": evs}
+		if mode == "free" {
+			idx["pool"] = desc.Pool
 		}
-	}
-	for i := 0; i < *nFree && failures < 4; i++ {
-		desc, evs, hung := freeRun(rng.Fork())
-		h, rn, why := histOK(evs)
-		idx := map[string]any{"mode": "free", "pool": desc.Pool, "events": evs}
 		st.CaseIndex = append(st.CaseIndex, idx)
 		cf.Add(fmt.Sprintf("CLog %s %s %s", coqLog(evs), vx.Bool(h), vx.Bool(rn)))
 		orders := map[int64]bool{}
+		var os64 []int64
 		cancels := 0
 		for _, e := range evs {
-			if e.Kind == evStart {
+			if e.Kind == evStart && !orders[e.O] {
 				orders[e.O] = true
+				os64 = append(os64, e.O)
 			}
 			if e.Kind == evCancel {
 				cancels++
 			}
 		}
-		st.Case(fmt.Sprint(evs), cancels > 0 && len(orders) >= 2)
-		st.Count(fmt.Sprintf("free:distinct-orders-started=%d", len(orders)))
-		if cancels > 0 {
-			st.Count("free:with-cancel-of-live-worker")
+		st.Count("api:" + mode + "-through-" + api)
+		if mode == "free" {
+			st.Case(api+fmt.Sprint(evs), cancels > 0 && len(orders) >= 2)
+			st.Count(fmt.Sprintf("free:distinct-orders-started=%d", len(orders)))
+			if cancels > 0 {
+				st.Count("free:with-cancel-of-live-worker")
+			}
+			if farApart(os64) {
+				st.Count("free:started-orders-more-than-MaxInt-apart")
+			}
+		} else {
+			st.Case(api+fmt.Sprint(evs), true)
+			st.Count("rereg:same-name-registered-again-immediately")
 		}
-		if hung || !h || !rn {
-			failures++
+		if post != "" && why == "" {
+			why = post
+		}
+		if hung || !h || (runMatters && !rn) || post != "" {
 			idx["why"] = why
 			idx["hung"] = hung
 			idx["run_ok"] = rn
-			st.Fail(idx)
+			if hung || !h || (runMatters && !rn) {
+				failures[api]++
+				st.Fail(idx)
+			} else if len(roFails[api]) < 2 {
+				idx["kind"] = "read-only-api"
+				roFails[api] = append(roFails[api], idx)
+			}
+		}
+	}
+	childLog := func(mode string, seed uint64) {
+		childNo++
+		req := childReq{Mode: mode, API: "pkg", Logger: childNo%3 == 0, Seed: seed}
+		resp, err := runChild(req)
+		if err != nil {
+			failures["pkg"]++
+			st.Fail(map[string]any{"mode": mode, "api": "pkg", "child_seed": seed, "why": err.Error()})
+			return
+		}
+		doLog(mode, "pkg", resp.Desc, resp.Events, resp.Hung, resp.Why, mode == "free")
+	}
+	for i := 0; i < *nFree/4 && failures["instance"] < 4; i++ {
+		evs, hung := reregRun(rng.Fork(), daemon.New())
+		doLog("rereg", "instance", freeDesc{}, evs, hung, "", false)
+	}
+	for i := 0; i < *nPkgFree/4 && failures["pkg"] < 4; i++ {
+		childLog("rereg", rng.U64())
+	}
+	for i := 0; i < *nFree && failures["instance"] < 4; i++ {
+		desc, evs, hung, post := freeRun(rng.Fork(), daemon.New())
+		doLog("free", "instance", desc, evs, hung, post, true)
+	}
+	for i := 0; i < *nPkgFree && failures["pkg"] < 4; i++ {
+		childLog("free", rng.U64())
+	}
+	for _, api := range []string{"instance", "pkg"} {
+		for _, f := range roFails[api] {
+			st.Fail(f)
 		}
 	}
 	if err := cf.Write(*out); err != nil {
